@@ -112,13 +112,22 @@ fn wide_and_lines(n: u32) -> Vec<String> {
     lines
 }
 
+/// build profile of this harness binary (the overflow behaviour of /repo differs per profile)
+fn profile() -> &'static str {
+    if cfg!(debug_assertions) {
+        "dbg"
+    } else {
+        "rel"
+    }
+}
+
 fn wide_cases(rng: &mut Rng, out: &mut dyn Write) {
     // 63 children: the product 2^63 still fits; 64 and 70: it does not
     for (w, n) in [63u32, 64, 70].iter().enumerate() {
         let lines = wide_and_lines(*n);
         let mut s = String::new();
-        writeln!(s, "case c20-wide-{} C20", n).unwrap();
-        writeln!(s, "info wide And: {} free features (c2d text, And over {} or-triangles)", n, n).unwrap();
+        writeln!(s, "case c20-{}-wide-{} C20", profile(), n).unwrap();
+        writeln!(s, "info wide And: {} free features (c2d text, And over {} or-triangles), harness profile {}", n, n, profile()).unwrap();
         writeln!(s, "n {}", n).unwrap();
         s.push_str(&file_block("c2d", &lines));
         match load(&lines, Some(*n)) {
@@ -149,7 +158,7 @@ pub fn run(kind: &str, ctx: &Ctx, out: &mut dyn Write) {
         ctx2.count = ctx.count / 4;
     }
     let srcs = sources(&ctx2, &mut rng);
-    let stride = if kind == "c20wide" { 5 } else { 1 };
+    let stride = if kind == "c20wide" { 5 } else if ctx.tier == "thorough" { 4 } else { 1 };
     let mut k_id = 0;
     let mut hist_k = [0usize; 4]; // k=1, 1<k<count, k=count, k=count+1
     let mut unsat = 0usize;
@@ -158,7 +167,7 @@ pub fn run(kind: &str, ctx: &Ctx, out: &mut dyn Write) {
         if si % stride != 0 {
             continue;
         }
-        let inp = match make_input(format!("c20-{}", k_id), src, &mut rng) {
+        let inp = match make_input(format!("c20-{}-{}", profile(), k_id), src, &mut rng) {
             Some(i) => i,
             None => continue,
         };
